@@ -125,6 +125,21 @@ Theorem C21_install_deny_monotone : forall i xp xs, inst_valid i = true ->
 Proof. exact install_deny_monotone. Qed.
 Print Assumptions C21_install_deny_monotone.
 
+(* A plug-names / slot-names regexp (restricted to a top-level alternation of literals, not starting with `$`) matches
+   exactly when the WHOLE name equals one of the alternatives: `led|buzzer` matches neither `led-admin` nor `xbuzzer`. The
+   same function decides literal attribute-value regexps. (The monitor uses a second, independently written matcher,
+   name_match_ref; the two are compared on every case by the run, their equality is not proved.) *)
+Theorem C21_name_whole_match : forall iface name c entry, c <> 36%N ->
+  name_match iface name (c :: entry) = true <-> In name (split_bar (c :: entry)).
+Proof. exact name_match_whole. Qed.
+Print Assumptions C21_name_whole_match.
+
+Example C21_ex_alternation :
+  name_match (bs "ia") (bs "led") (bs "led|buzzer") = true /\ name_match (bs "ia") (bs "buzzer") (bs "led|buzzer") = true /\
+  name_match (bs "ia") (bs "led-admin") (bs "led|buzzer") = false /\ name_match (bs "ia") (bs "xbuzzer") (bs "led|buzzer") = false /\
+  name_match_ref (bs "ia") (bs "led-admin") (bs "led|buzzer") = false /\ name_match_ref (bs "ia") (bs "buzzer") (bs "led|buzzer") = true.
+Proof. repeat split. Qed.
+
 (* ------------------------------------------------------------------ non-vacuity *)
 Definition ex_env := mkEnv true (bs "ubuntu") false None None.
 Definition ex_plug := mkSide (bs "n1") (bs "ia") (bs "app") [(bs "k1", VStr (bs "x"))] [].
